@@ -5,6 +5,9 @@
    whether the inner trait accepts a raw value.  Clause codes:
      1 an element / key / value / member outside the inner trait's range is stored
      2 the length is outside minlen..maxlen
+       (1 and 2 are reported at the step that breaks the invariant: they compare the state
+        after the step with a state before that satisfied it; the initial state is checked
+        by the *_hist functions at step 0 through the start-state clause 6)
      3 TraitError raised, but the contents changed or somebody was notified
      4 another exception raised (IndexError/ValueError/KeyError/TypeError of the built-in),
        but the contents changed or somebody was notified
@@ -17,6 +20,9 @@ Local Open Scope Z_scope.
 
 Definition is_trait_error (o : res unit) : bool := match o with Raise TraitError => true | _ => false end.
 Definition lifted (i : Z) (cs : list Z) : list Z := map (fun c => 100 * i + c) cs.
+(* clause 6: the value the history starts from (the result of the first whole-value
+   assignment) already violates the invariant *)
+Definition start_ok (b : bool) : list Z := chk 6 b.
 
 (* ---------------- lists ---------------- *)
 Section ListLaw.
@@ -37,8 +43,8 @@ Section ListLaw.
 
   Definition law_list_step (before : list Z) (lo : lop) (ob : obs) : list Z :=
     let same := zlist_eqb (o_after ob) before && is_nil (o_events ob) in
-    chk 1 (forallb dom (o_after ob))
-    ++ chk 2 (len_ok mn mx (zlen (o_after ob)))
+    chk 1 (negb (forallb dom before) || forallb dom (o_after ob))
+    ++ chk 2 (negb (len_ok mn mx (zlen before)) || len_ok mn mx (zlen (o_after ob)))
     ++ chk 3 (negb (is_trait_error (o_out ob)) || same)
     ++ chk 4 (negb (is_raise (o_out ob)) || same)
     ++ chk 5 (forallb acc (loffered lo) || is_raise (o_out ob)).
@@ -72,7 +78,7 @@ Section SetLaw.
 
   Definition law_set_step (before : list Z) (so : sop) (ob : sobs) : list Z :=
     let same := seteq (so_after ob) before && Nat.eqb (so_nev ob) 0 in
-    chk 1 (forallb dom (so_after ob))
+    chk 1 (negb (forallb dom before) || forallb dom (so_after ob))
     ++ chk 3 (negb (s_is_trait_error (so_out ob)) || same)
     ++ chk 4 (negb (s_is_raise (so_out ob)) || same)
     ++ chk 5 (forallb acc (so_offered before so) || s_is_raise (so_out ob)).
@@ -106,7 +112,7 @@ Section DictLaw.
 
   Definition law_dict_step (before : amap) (o : dop) (ob : dobs) : list Z :=
     let same := mapeq (do_after ob) before && Nat.eqb (do_nev ob) 0 in
-    chk 1 (dict_ok (do_after ob))
+    chk 1 (negb (dict_ok before) || dict_ok (do_after ob))
     ++ chk 3 (negb (d_is_trait_error (do_out ob)) || same)
     ++ chk 4 (negb (d_is_raise (do_out ob)) || same)
     ++ chk 5 (forallb (fun p => kacc (fst p) && vacc (snd p)) (do_offered before o) || d_is_raise (do_out ob)).
@@ -142,8 +148,9 @@ Section NestedLaw.
 
   Definition law_nested_step (before : list (list Z)) (o : nop) (ob : nobs) : list Z :=
     let same := nl_eqb (n_after ob) before && Nat.eqb (n_events ob) 0 in
-    chk 1 (forallb (forallb dom) (n_after ob))
-    ++ chk 2 (forallb (fun l => len_ok imn imx (zlen l)) (n_after ob) && len_ok omn omx (zlen (n_after ob)))
+    chk 1 (negb (forallb (forallb dom) before) || forallb (forallb dom) (n_after ob))
+    ++ chk 2 (negb (forallb (fun l => len_ok imn imx (zlen l)) before && len_ok omn omx (zlen before))
+              || (forallb (fun l => len_ok imn imx (zlen l)) (n_after ob) && len_ok omn omx (zlen (n_after ob))))
     ++ chk 3 (negb (is_trait_error (n_out ob)) || same)
     ++ chk 4 (negb (is_raise (n_out ob)) || same)
     ++ chk 5 ((forallb raw_acc (n_offered o) && forallb acc (n_inner_offered o)) || is_raise (n_out ob)).
@@ -155,27 +162,37 @@ Section NestedLaw.
     end.
 End NestedLaw.
 
-(* ---------------- Dict(K, List(T)): law only (no model), contents judged recursively ---------------- *)
+(* ---------------- Dict(K, List(T)) ---------------- *)
 Section NDictLaw.
-  Variable kdom dom : Z -> bool.
+  Variable kdom kacc dom acc : Z -> bool.
   Variable imn : Z.
   Variable imx : option Z.
-  Definition ndict := list (Z * list Z).
-  (* observation: outcome, contents afterwards, number of notifications, was something rejectable offered *)
-  Definition ndobs := (res unit * ndict * nat * bool)%type.
+
   Definition nd_eqb (a b : ndict) : bool :=
     list_eqb (fun p q => (fst p =? fst q) && zlist_eqb (snd p) (snd q)) a b.
-  Definition law_ndict_step (before : ndict) (ob : ndobs) : list Z :=
-    let '(out, after, nev, bad) := ob in
-    let same := nd_eqb after before && Nat.eqb nev 0 in
-    chk 1 (forallb (fun p => kdom (fst p) && forallb dom (snd p)) after)
-    ++ chk 2 (forallb (fun p => len_ok imn imx (zlen (snd p))) after)
-    ++ chk 3 (negb (is_trait_error out) || same)
-    ++ chk 4 (negb (is_raise out) || same)
-    ++ chk 5 (negb bad || is_raise out).
-  Fixpoint law_ndict_hist (i : Z) (before : ndict) (h : list ndobs) : list Z :=
+  Definition ndict_ok (m : ndict) : bool :=
+    forallb (fun p => kdom (fst p) && forallb dom (snd p) && len_ok imn imx (zlen (snd p))) m.
+
+  Definition nd_offered (before : ndict) (o : ndop) : list (Z * raw) :=
+    match o with
+    | NDSetItem k r => [(k, r)]
+    | NDUpdate ps | NDAssign ps => ps
+    | NDSetDefault k r => match nd_lookup k before with Some _ => [] | None => [(k, r)] end
+    | _ => []
+    end.
+  Definition nd_inner_offered (o : ndop) : list Z := match o with NDInner _ io => offered io | _ => [] end.
+
+  Definition law_ndict_step (before : ndict) (o : ndop) (ob : ndobs) : list Z :=
+    let same := nd_eqb (nd_after ob) before && Nat.eqb (nd_events ob) 0 in
+    chk 1 (negb (ndict_ok before) || ndict_ok (nd_after ob))
+    ++ chk 3 (negb (is_trait_error (nd_out ob)) || same)
+    ++ chk 4 (negb (is_raise (nd_out ob)) || same)
+    ++ chk 5 ((forallb (fun p => kacc (fst p) && raw_acc acc imn imx (snd p)) (nd_offered before o)
+               && forallb acc (nd_inner_offered o)) || is_raise (nd_out ob)).
+
+  Fixpoint law_ndict_hist (i : Z) (before : ndict) (h : list (ndop * ndobs)) : list Z :=
     match h with
     | [] => []
-    | ob :: r => lifted i (law_ndict_step before ob) ++ law_ndict_hist (i + 1) (snd (fst (fst ob))) r
+    | (o, ob) :: r => lifted i (law_ndict_step before o ob) ++ law_ndict_hist (i + 1) (nd_after ob) r
     end.
 End NDictLaw.
